@@ -447,9 +447,35 @@ def run(ctx):
                 ctx.fail("a call failed or returned another call's data under this interleaving", meta, got,
                          [ref[a] for a in args])
     two_operations(ctx)
+    lookup_walk_two_preemptions(ctx)
     sys.setswitchinterval(old_switch)
     ctx.sample({"style": "encoded", "scenario": "two-calls", "preempt_after_event": 1234})
     ctx.sample({"style": "document", "scenario": "random-lines", "threads": 3, "switches": [[17, 1], [230, 2]]})
+
+
+def lookup_walk_two_preemptions(ctx):
+    """Two preemptions around the walk that finds which option set provides an option (Properties.provider, run for
+    every option read of every call): thread A is stopped inside a walk, thread B runs up to just after one of its own
+    walks, A continues. No call may fail or see the other's state."""
+    client, tr = make_client("document")
+    want = [call(client, "AAAA")(), call(client, "BB")()]
+    run_schedule([call(client, "AAAA"), call(client, "BB")], {}, granularity="line", watch=("provider",))
+    first = list(WATCHED)
+    nsched = 0
+    for k1 in first[::max(1, len(first) // ctx.pick(10, 60))]:
+        run_schedule([call(client, "AAAA"), call(client, "BB")], {k1: 1}, granularity="line", watch=("provider",))
+        later = [e for e in WATCHED if e > k1]
+        ends = [e + 1 for e in later if e + 1 not in later]            # right after a walk of the second thread
+        for k2 in ends[:ctx.pick(25, 200)]:
+            res, nev, errs = run_schedule([call(client, "AAAA"), call(client, "BB")], {k1: 1, k2: 0}, granularity="line")
+            nsched += 1
+            meta = {"scenario": "lookup-walk/two-preemptions", "first": k1, "second": k2}
+            ctx.case(common.canon(meta), True)
+            got = [r[1] if r and r[0] == "ok" else r for r in res]
+            if errs or got != want:
+                ctx.fail("a call failed or returned another call's data under this interleaving", meta, errs or got, want)
+                return
+    ctx.dist["schedule:lookup-walk/two-preemptions"] += nsched
 
 
 def two_operations(ctx):
@@ -459,7 +485,9 @@ def two_operations(ctx):
     from harness.props import c15
     from suds.sax.element import Element
     hdr = Element("Token", ns=("auth", "urn:auth"))
-    hdr.setText("t")
+    hdr.setText("ORIG")
+    hdr2 = Element("Token", ns=("auth", "urn:auth"))
+    hdr2.setText("CLONE")
     tr = wsdlkit.RecordingTransport(reply=None)
     client = wsdlkit.client(c15.wsdl_two_ops("http://h.invalid/two"), transport=tr, soapheaders=hdr)
 
@@ -472,6 +500,8 @@ def two_operations(ctx):
     for who in ("same-client", "client+clone"):
         for k in pts[::1 if who == "same-client" else 3]:
             other = client if who == "same-client" else client.clone()
+            if other is not client:
+                other.set_options(soapheaders=hdr2)     # (what the clone's own requests carry is known finding D49)
             del tr.sent[:]
             res, nev, errs = run_schedule([op(client, "f"), op(other, "g")], {k: 1})
             meta = {"scenario": "two-operations/" + who, "preempt_after_event": k}
@@ -495,6 +525,8 @@ def two_operations(ctx):
                     bad.append("request for %s sent with SOAPAction %s" % (opname, act))
                 if len(toks) != 1:
                     bad.append("request for %s carries %d configured header elements" % (opname, len(toks)))
+                elif opname == "f" and toks[0].get("text") != "ORIG":
+                    bad.append("the original client's request carries the header %r" % toks[0].get("text"))
             if len(tr.sent) != 2 or bad or client.options.headers != {}:
                 ctx.fail("requests of concurrent calls do not each carry their own headers", meta,
                          bad or [len(tr.sent), client.options.headers], "one request per call, own SOAPAction")
